@@ -77,7 +77,8 @@ def call(op, f):
             b = (da > 40).astype("uint8")
             return getattr(b.hdc.algo, op)()
         if op == "autocorr":
-            return da.astype("int16").assign_attrs(da.attrs).transpose("y", "x", tname).rename({tname: "time"}).hdc.algo.autocorr()
+            obj = da.astype("int16").assign_attrs(da.attrs).rename({tname: "time"})
+            return (obj if f.get("timefirst") else obj.transpose("y", "x", "time")).hdc.algo.autocorr()
         if op == "mktrend":
             return da.astype("int16").assign_attrs(da.attrs).rename({tname: "time"}).hdc.algo.mktrend()
         if op == "mean_grp":
